@@ -642,3 +642,20 @@ add('c07-shape-from-bounds-rounds-up', ['C07', 'C13'], 'silent', 'Slicer._proces
     'if sub_slice.step is not None:\n        step *= sub_slice.step',
     'if sub_slice.step is not None:\n        step *= sub_slice.step\n        _n = -(-(stop - start) // step)',
     'silent twin: ceiling division')
+add('c01-plates-compare-by-value', ['C01', 'C07'], 'fire', 'Plate.get_volume',
+    'def get_volume(self', 'def __eq__(self, other):\n    return isinstance(other, Plate) and self.name == other.name\n\ndef get_volume(self',
+    'the same-plate test of the plate transfer becomes a value comparison')
+add('c08-quantity-rerendered-at-declaration', ['C08'], 'fire', 'Recipe.transfer',
+    "RecipeStep(self, 'transfer', source, destination, quantity)",
+    "RecipeStep(self, 'transfer', source, destination, '%g %s' % Unit.parse_quantity(quantity))",
+    'the step records a re-rendered quantity (six digits)')
+add('c01-overlap-decided-on-get', ['C01', 'C02'], 'fire', 'PlateSlicer._transfer',
+    'if (addressed[0] & addressed[1]).any():', 'if numpy.shares_memory(frm.get(), to.get()):',
+    'get() is a new array for lists of wells: overlapping lists are accepted')
+add('c09-plate-scan-skipped-on-display-volume', ['C09', 'C17', 'C15'], 'fire', 'Recipe.bake',
+    'else:  # Plate: what vanished from each well', 'elif step.to[0].get_volume() != step.to[1].get_volume():',
+    'less than half a display unit per well leaves no trace in the record')
+add('c05-contents-dropped-on-zero-volume', ['C05', 'C10'], 'fire', 'Container._transfer',
+    'to.volume = 0\n    for substance, amount in to.contents.items():',
+    'if to.volume == 0:\n        to.contents = {}\n    to.volume = 0\n    for substance, amount in to.contents.items():',
+    'solids configured to take no volume are discarded')
